@@ -80,6 +80,16 @@ LookupVerdict(f, code, ov) ==
      THEN (IF ov.k = "str" /\ ov.s = tbl[key] THEN "ok" ELSE "value.lookup-name")
      ELSE (IF ov.k = "none" THEN "ok" ELSE "value.lookup-unknown")
 
+\* INDIRECT_LOOKUP: the text is looked up under the pair (code of the companion field, own code)
+IndirectVerdict(f, bytes, code, ov) ==
+  LET tbl == IndirectLookups[f.indirect]
+      comp == Slice(bytes, f.indOff, f.indLen)
+      key == IF Fits30(code) /\ Fits30(comp) THEN ToString(ToNat(comp)) \o "_" \o ToString(ToNat(code)) ELSE "?"
+  IN IF f.indOff < 0 THEN "ok"
+     ELSE IF key \in DOMAIN tbl
+     THEN (IF ov.k = "str" /\ ov.s = tbl[key] THEN "ok" ELSE "value.indirect-lookup-name")
+     ELSE (IF ov.k = "none" THEN "ok" ELSE "value.indirect-lookup-unknown")
+
 RECURSIVE JoinBits(_, _, _, _)
 JoinBits(tbl, code, k, acc) ==
   IF k > Len(code) THEN acc
@@ -162,7 +172,7 @@ ValueVerdict(f, bytes, of) ==
       [] f.kind = "strfix"    -> First(StrFixVerdict(f, bytes, of.v, "value"), StrFixVerdict(f, bytes, of.r, "raw"))
       [] f.kind = "bin"       -> First(BinVerdict(code, of.v, "value"), BinVerdict(code, of.r, "raw"))
       [] f.kind = "float"     -> First(FloatVerdict(code, of.v, "value"), FloatVerdict(code, of.r, "raw"))
-      [] f.kind = "indirect"  -> IntVerdict(code, of.r, "raw")
+      [] f.kind = "indirect"  -> First(IntVerdict(code, of.r, "raw"), IndirectVerdict(f, bytes, code, of.v))
       [] OTHER                -> "ok"
 
 VarValueVerdict(f, bytes, of) ==
